@@ -68,6 +68,8 @@ def run(ctx: Ctx, rep: Report) -> None:
     rule_undo(ctx, rep, ('bqskit/passes/mapping/',), 1)
     swap_radix(ctx, rep)
     visited(ctx, rep)
+    qubit_gates(ctx, rep)
+    place_conn(ctx, rep)
     g = ctx.cls('bqskit/qis/graph.py:CouplingGraph')
     hashrule.rule_hash(ctx, rep, [g])
 
@@ -673,6 +675,103 @@ def visited(ctx: Ctx, rep: Report) -> None:
                     key='unfiltered',
                 )
     rep.floor(R, n, 2, 'list-based worklist loops')
+
+
+def qubit_gates(ctx: Ctx, rep: Report) -> None:
+    """QUBITGATE: gate classes whose constructor fixes the radixes to 2
+    (`self._radixes = tuple([2] * n)`, no radix argument) are derived from
+    bqskit/ir/gates.  A mapping pass that builds a circuit of the input's
+    own radixes (`Circuit(x.num_qudits, x.radixes)`) must not put such a
+    gate into it unless the function tests the radixes first: every
+    non-qubit input raises 'Operation radix mismatch with Circuit'."""
+    R = 'QUBITGATE'
+    qubit_only = set()
+    for c in ctx.index.classes.values():
+        if not c.path.startswith('bqskit/ir/gates/'):
+            continue
+        init = c.methods.get('__init__')
+        if init is None or any(
+                p in ('radix', 'radixes', 'num_levels') for p in init.params):
+            continue
+        for s in ast.walk(init.node):
+            if isinstance(s, ast.Assign) and any(
+                    norm(t) == 'self._radixes' for t in s.targets) and (
+                        '[2]' in norm(s.value)):
+                qubit_only.add(c.name)
+    rep.floor(R, len(qubit_only), 3, 'gate classes with radixes fixed to 2')
+    n = 0
+    for f in ctx.index.all_functions():
+        if not f.path.startswith('bqskit/passes/mapping/'):
+            continue
+        generic = any(
+            isinstance(c, ast.Call) and norm(c.func) == 'Circuit'
+            and len(c.args) == 2 and norm(c.args[1]).endswith('.radixes')
+            for c in ast.walk(f.node)
+        )
+        if not generic:
+            continue
+        n += 1
+        rep.count()
+        rep.seen(f.qualname)
+        used = sorted({
+            norm(c.func) for c in ast.walk(f.node) if isinstance(c, ast.Call)
+            and norm(c.func) in qubit_only
+        })
+        guarded = any(
+            isinstance(t, (ast.If, ast.Assert)) and 'radix' in norm(t.test)
+            for t in ast.walk(f.node)
+        )
+        rep.check(
+            not used or guarded, R,
+            (f.cls.name + '.' if f.cls is not None else '') + f.name,
+            f.path, f.lineno,
+            'no qubit-only gate goes into a circuit of the input\'s radixes',
+            f'{f.qualname} builds a circuit with the input\'s radixes and '
+            f'appends {", ".join(used)} (radixes fixed to 2 by the '
+            'constructor) without testing the radixes: any qutrit input '
+            'raises "Operation radix mismatch with Circuit"',
+            key='qubit-only:' + ','.join(used),
+        )
+    rep.floor(R, n, 3, 'mapping functions that build radix-generic circuits')
+
+
+def place_conn(ctx: Ctx, rep: Report) -> None:
+    """PLACECONN: "the placement is a connected set of physical qudits".
+    Every placement pass (a BasePass under passes/mapping/placement that
+    stores `data.placement`) tests `is_fully_connected()` of the placed
+    subgraph somewhere in the class - sibling agreement: Greedy and Trivial
+    did, Static did not (F61)."""
+    R = 'PLACECONN'
+    n = 0
+    for c in ctx.index.classes.values():
+        if not c.path.startswith('bqskit/passes/mapping/placement/'):
+            continue
+        sets = [
+            s for m in c.methods.values() for s in ast.walk(m.node)
+            if isinstance(s, ast.Assign)
+            and any(norm(t) in ('data.placement', "data['placement']")
+                    for t in s.targets)
+        ]
+        if not sets:
+            continue
+        n += 1
+        rep.count()
+        rep.seen(c.name)
+        tests = [
+            k for m in c.methods.values() for k in ast.walk(m.node)
+            if isinstance(k, ast.Call) and isinstance(k.func, ast.Attribute)
+            and k.func.attr == 'is_fully_connected'
+        ]
+        rep.check(
+            bool(tests), R, c.name, c.path, sets[0].lineno,
+            'the placed subgraph is tested for connectivity',
+            f'{c.name} stores data.placement and never tests '
+            'is_fully_connected() of the placed subgraph: a logical qudit '
+            'without interactions can land anywhere, and layout / routing '
+            'then refuse the circuit',
+            key='no-connectivity-test',
+        )
+    rep.floor(R, n, 3, 'placement passes')
 
 
 def swap_radix(ctx: Ctx, rep: Report) -> None:
